@@ -145,6 +145,21 @@ func c13Program(run *common.Run, prog int, engine string, idx int) {
 				rules[i].Fam = common.Pick(r, fams)
 			}
 		}
+		if r.Chance(1, 10) {
+			// a long request: 13-40 rules that name two append columns and a counter alternately, every append with
+			// its own byte (rules on one column do not commute, and they are not adjacent in the request)
+			rules = rules[:0]
+			fam := common.Pick(r, fams)
+			for i, n := 0, r.Range(13, 40); i < n; i++ {
+				switch q := r.Intn(3); q {
+				case 2:
+					rules = append(rules, drive.Rule{Fam: fam, Qual: "lc", Inc: int64(i + 1)})
+				default:
+					rules = append(rules, drive.Rule{Fam: fam, Qual: []string{"la", "lb"}[q], Append: true, Val: string(rune('a' + i%26))})
+				}
+			}
+			run.Count("requests_with_13_or_more_rules", 1)
+		}
 		for _, ru := range rules {
 			for ts := range m.Rows[k][ru.Fam][ru.Qual] {
 				if ts > model.TruncMs(clock) {
